@@ -1,7 +1,8 @@
 (* GENERATED on every run from the current source of /repo/tntorch by translator/py2coq.py -- never edit.
    One definition per Python function and argument-kind variant (T = compressed tensor, R = scalar).
    Kernel primitives (hand-modelled, tied by correspondence) are the Section variables. *)
-From Coq Require Import Reals.
+From Coq Require Import Reals List.
+Import ListNotations.
 Open Scope R_scope.
 Section Gen.
 Variable tensor : Type.
@@ -14,6 +15,13 @@ Variable t_sobol : tensor -> tensor -> marg -> R.
 Variable t_weight : nat -> tensor.
 Variable t_mask : tensor -> tensor -> tensor.
 Variable t_dim : tensor -> nat.
+Variable tseq : Type.
+Variable s_nth : tseq -> nat -> tensor.
+Variable s_len : tseq -> nat.
+Variables bnds bnd : Type.
+Variable b_at : bnds -> nat -> bnd.
+Variable t_partial : tensor -> nat -> nat -> bnd -> tensor.
+Variable t_pysum : list tensor -> tensor.
 
 Definition gen_tensor_rmul_TR (self : tensor) (other : R) : tensor :=
   (t_smul other self).
@@ -67,4 +75,10 @@ Definition gen_anova_mean_dimension_N (t : tensor) (marginals : marg) : R :=
   (t_sobol t (t_weight (t_dim t)) marginals).
 Definition gen_anova_mean_dimension_M (t : tensor) (mask : tensor) (marginals : marg) : R :=
   ((t_sobol t (t_mask (t_weight (t_dim t)) mask) marginals) / (t_sobol t mask marginals)).
+Definition gen_derivatives_divergence_P (ts : tseq) (bounds : bnds) : tensor :=
+  (t_pysum (map (fun n : nat => (t_partial (s_nth ts n) n 1%nat (b_at bounds n))) (seq 0 (s_len ts)))).
+Definition gen_derivatives_curl_P (ts : tseq) (bounds : bnds) : list tensor :=
+  [(gen_tensor_sub_TT (t_partial (s_nth ts 2%nat) 1%nat 1%nat (b_at bounds 1%nat)) (t_partial (s_nth ts 1%nat) 2%nat 1%nat (b_at bounds 2%nat))); (gen_tensor_sub_TT (t_partial (s_nth ts 0%nat) 2%nat 1%nat (b_at bounds 2%nat)) (t_partial (s_nth ts 2%nat) 0%nat 1%nat (b_at bounds 0%nat))); (gen_tensor_sub_TT (t_partial (s_nth ts 1%nat) 0%nat 1%nat (b_at bounds 0%nat)) (t_partial (s_nth ts 0%nat) 1%nat 1%nat (b_at bounds 1%nat)))].
+Definition gen_derivatives_laplacian_P (t : tensor) (bounds : bnds) : tensor :=
+  (t_pysum (map (fun n : nat => (t_partial t n 2%nat (b_at bounds n))) (seq 0 (t_dim t)))).
 End Gen.
